@@ -39,59 +39,53 @@ fn check_install(g: &PatchGuard, src_off: usize, jit_off: Option<usize>, jit_add
     unsafe {
         let base = os::mem_base();
         let n = g_size(g);
-        assert!(n == 5 || n == 12, "OBL:C03.entry-slot: at most the 16-byte entry slot is overwritten");
-        assert!(src_off + n <= A, "OBL:C03.entry-in-arena: the entry patch stays inside the function's memory");
-        // C01: entry -> trampoline
-        assert!(x86_lands(&os::MEM[src_off..src_off + n], base + src_off) == Some(jit_addr), "OBL:C01.install.entry: the bytes at the function entry decode to a jump landing exactly on the trampoline");
-        // C02.save
-        assert!(g_func(g) == base + src_off, "OBL:C02.save.addr: the guard remembers the patched address");
-        assert!(g_orig(g).len() >= n, "OBL:C02.save.len: the guard holds at least patch_size original bytes");
+        let size_ok = n == 5 || n == 12;
+        let in_arena = size_ok && src_off + n <= A;
+        // symbolic witnesses for the for-all obligations
         let j: usize = kani::any();
-        kani::assume(j < n);
-        assert!(g_orig(g)[j] == SNAPSHOT[src_off + j], "OBL:C02.save.bytes: saved bytes are the bytes that were there before the patch");
-        // C11: the trampoline is requested near the function whose entry branch has to reach it
-        assert!(ALLOC_ANCHOR == base + src_off, "OBL:C11.alloc.anchor: the trampoline is allocated near the function being patched (the entry branch must reach it), not near anything else");
-        // C12.own
-        assert!(g_jit(g) == jit_addr && g_jit_size(g) == jit_len && jit_len == os::LAST_MMAP_LEN, "OBL:C12.own: the guard owns exactly the mapping (address, length) that mmap returned for this installation");
-        assert!(os::live_count() == 1 && os::N_MMAP_OK == 1 && os::N_MUNMAP == 0, "OBL:C12.one-mapping: one mapping per installation, none released early");
-        assert!(os::LAST_MMAP_PROT == (libc::PROT_READ | libc::PROT_WRITE | libc::PROT_EXEC), "OBL:C01.tramp.executable: the trampoline is mapped executable");
-        // C03.frame.install + C17.install over every arena byte
+        kani::assume(j < 12);
         let i: usize = kani::any();
         kani::assume(i < A);
-        let in_entry = in_range(i, src_off, n);
+        let in_entry = in_arena && in_range(i, src_off, n);
         let in_jit = match jit_off {
             Some(o) => in_range(i, o, jit_len),
             None => false,
         };
-        if !in_entry && !in_jit {
-            assert!(os::MEM[i] == SNAPSHOT[i], "OBL:C03.frame.install: no byte outside the entry patch and the trampoline changes");
+        let changed = os::MEM[i] != SNAPSHOT[i];
+        crate::obligations! {
+            size_ok => "OBL:C03.entry-slot: at most the 16-byte entry slot is overwritten",
+            in_arena => "OBL:C03.entry-in-arena: the entry patch stays inside the function's memory",
+            (in_arena && x86_lands(&os::MEM[src_off..src_off + if in_arena { n } else { 0 }], base + src_off) == Some(jit_addr)) => "OBL:C01.install.entry: the bytes at the function entry decode to a jump landing exactly on the trampoline",
+            (g_func(g) == base + src_off) => "OBL:C02.save.addr: the guard remembers the patched address",
+            (g_orig(g).len() >= n) => "OBL:C02.save.len: the guard holds at least patch_size original bytes",
+            (!in_arena || j >= n || j >= g_orig(g).len() || g_orig(g)[j] == SNAPSHOT[src_off + j]) => "OBL:C02.save.bytes: saved bytes are the bytes that were there before the patch",
+            (ALLOC_ANCHOR == base + src_off) => "OBL:C11.alloc.anchor: the trampoline is allocated near the function being patched (the entry branch must reach it), not near anything else",
+            (g_jit(g) == jit_addr && g_jit_size(g) == jit_len && jit_len == os::LAST_MMAP_LEN) => "OBL:C12.own: the guard owns exactly the mapping (address, length) that mmap returned for this installation",
+            (os::live_count() == 1 && os::N_MMAP_OK == 1 && os::N_MUNMAP == 0) => "OBL:C12.one-mapping: one mapping per installation, none released early",
+            (os::LAST_MMAP_PROT == (libc::PROT_READ | libc::PROT_WRITE | libc::PROT_EXEC)) => "OBL:C01.tramp.executable: the trampoline is mapped executable",
+            (in_entry || in_jit || !changed) => "OBL:C03.frame.install: no byte outside the entry patch and the trampoline changes",
+            (!(changed || in_entry) || flushed_with_final_content(i)) => "OBL:C17.install: every written byte is covered by a flush issued after its last write",
+            (os::EV_KIND[0] == 4) => "OBL:C01.order.alloc-first: the trampoline is obtained before the function is touched",
+            (in_arena && os::writable(base + src_off, n)) => "OBL:C01.page.cover: every byte of the entry patch lies in pages made R|W|X by a successful mprotect",
         }
-        if os::MEM[i] != SNAPSHOT[i] || in_entry {
-            assert!(flushed_with_final_content(i), "OBL:C17.install: every written byte is covered by a flush issued after its last write");
-        }
-        // C01.page.cover (small-arena form): the entry bytes were made writable before being written
-        assert!(os::EV_KIND[0] == 4, "OBL:C01.order.alloc-first: the trampoline is obtained before the function is touched");
-        assert!(os::writable(base + src_off, n), "OBL:C01.page.cover: every byte of the entry patch lies in pages made R|W|X by a successful mprotect");
     }
 }
 
 fn check_drop(src_off: usize, jit_off: Option<usize>, jit_len: usize, n: usize) {
     unsafe {
-        assert!(os::N_MUNMAP == 1 && !os::BAD_MUNMAP && os::live_count() == 0, "OBL:C12.release: the trampoline mapping is released exactly once, with exactly its address and length");
         let i: usize = kani::any();
         kani::assume(i < A);
         let in_jit = match jit_off {
             Some(o) => in_range(i, o, jit_len),
             None => false,
         };
-        if !in_jit {
-            assert!(os::MEM[i] == SNAPSHOT[i], "OBL:C02.restore: after drop every byte outside the released trampoline is what it was before installation");
+        let last = if os::N_FLUSH >= 1 && os::N_FLUSH <= os::MAXFLUSH { os::N_FLUSH - 1 } else { 0 };
+        crate::obligations! {
+            (os::N_MUNMAP == 1 && !os::BAD_MUNMAP && os::live_count() == 0) => "OBL:C12.release: the trampoline mapping is released exactly once, with exactly its address and length",
+            (in_jit || os::MEM[i] == SNAPSHOT[i]) => "OBL:C02.restore: after drop every byte outside the released trampoline is what it was before installation",
+            (!in_range(i, src_off, n) || flushed_with_final_content(i)) => "OBL:C17.drop: restored bytes are covered by a flush issued after the restoring write",
+            (os::N_FLUSH >= 1 && os::FLUSH_START[last] <= os::mem_base() + src_off && os::FLUSH_END[last] >= os::mem_base() + src_off + n) => "OBL:C17.drop.last: the final event of restoration is a flush covering the restored range",
         }
-        if in_range(i, src_off, n) {
-            assert!(flushed_with_final_content(i), "OBL:C17.drop: restored bytes are covered by a flush issued after the restoring write");
-        }
-        let last = os::N_FLUSH - 1;
-        assert!(os::N_FLUSH >= 1 && os::FLUSH_START[last] <= os::mem_base() + src_off && os::FLUSH_END[last] >= os::mem_base() + src_off + n, "OBL:C17.drop.last: the final event of restoration is a flush covering the restored range");
     }
 }
 
@@ -119,12 +113,14 @@ fn lifecycle_near() {
     let base = os::mem_base();
     let g = PatchAmd64::replace_function_with_other_function(fp(os::mem_ptr(src_off)), fp_int(fake));
     unsafe {
-        assert!(x86_lands(&os::MEM[jit_off..jit_off + 12], base + jit_off) == Some(fake), "OBL:C01.install.tramp: the trampoline decodes to a jump landing exactly on the fake");
         let e = x86_effect(&os::MEM[jit_off..jit_off + 12]);
-        assert!(e == Some(0) || e == Some(W_RAX), "OBL:C13.x86.tramp.effect: the trampoline writes nothing but rax");
+        crate::obligations! {
+            (x86_lands(&os::MEM[jit_off..jit_off + 12], base + jit_off) == Some(fake)) => "OBL:C01.install.tramp: the trampoline decodes to a jump landing exactly on the fake",
+            (e == Some(0) || e == Some(W_RAX)) => "OBL:C13.x86.tramp.effect: the trampoline writes nothing but rax",
+            (g_size(&g) == 5) => "OBL:C11.x86.reach: a trampoline within the allocation range is reached by the 5-byte rel32 entry",
+        }
     }
     check_install(&g, src_off, Some(jit_off), base + jit_off, 12);
-    assert!(g_size(&g) == 5, "OBL:C11.x86.reach: a trampoline within the allocation range is reached by the 5-byte rel32 entry");
     drop(g);
     check_drop(src_off, Some(jit_off), 12, 5);
     kani::cover!(true, "COVER:end");
@@ -154,9 +150,11 @@ fn lifecycle_bool() {
     let g = PatchAmd64::replace_function_return_boolean(fp(os::mem_ptr(src_off)), value);
     unsafe {
         let t = &os::MEM[jit_off..jit_off + 8];
-        assert!(t[0] == 0x48 && t[1] == 0xC7 && t[2] == 0xC0 && t[3] == value as u8 && t[4] == 0 && t[5] == 0 && t[6] == 0 && t[7] == 0xC3, "OBL:C10.stub.x86.bytes: the trampoline is exactly mov rax, imm32(value) ; ret");
-        assert!(x86_mov_ret_value(t) == Some(value as u64), "OBL:C10.stub.x86.value: rax (hence al) holds exactly the requested boolean at the ret");
-        assert!(x86_effect(t) == Some(W_RAX | POP_RET), "OBL:C10.stub.x86.effect: only rax is written and the return address is popped as by a normal return");
+        crate::obligations! {
+            (t[0] == 0x48 && t[1] == 0xC7 && t[2] == 0xC0 && t[3] == value as u8 && t[4] == 0 && t[5] == 0 && t[6] == 0 && t[7] == 0xC3) => "OBL:C10.stub.x86.bytes: the trampoline is exactly mov rax, imm32(value) ; ret",
+            (x86_mov_ret_value(t) == Some(value as u64)) => "OBL:C10.stub.x86.value: rax (hence al) holds exactly the requested boolean at the ret",
+            (x86_effect(t) == Some(W_RAX | POP_RET)) => "OBL:C10.stub.x86.effect: only rax is written and the return address is popped as by a normal return",
+        }
     }
     check_install(&g, src_off, Some(jit_off), base + jit_off, 8);
     kani::cover!(value, "COVER:true");
@@ -275,7 +273,6 @@ fn mon_no_guard_at_panic(kind: u32, _line: u32) {
 #[kani::unwind(26)]
 #[kani::stub(crate::injector_core::linuxapi::__clear_cache, os::flush)]
 #[kani::stub(crate::injector_core::common::allocate_jit_memory, far_alloc)]
-#[kani::stub(crate::injector_core::common::PatchGuard::new, counting_guard_new)]
 #[kani::stub(crate::verif_rt::on_panic, mon_no_guard_at_panic)]
 fn c05_no_guard_before_writable() {
     fresh_world();
